@@ -106,9 +106,26 @@ func (c *Ctx) sliceOriginOf(pkg *packages.Package, fn ast.Node, obj types.Object
 					}
 				}
 			}
+			// a conversion of nil: []Value(nil)
+			if tv, ok := info.Types[t.Fun]; ok && tv.IsType() && len(t.Args) == 1 {
+				if id, ok := ast.Unparen(t.Args[0]).(*ast.Ident); ok && id.Name == "nil" {
+					return sliceOrigin{true, "nil"}
+				}
+				return classify(t.Args[0])
+			}
 			if cal := Callee(info, t); cal != nil {
 				if cal.Name() == "CopyToSlice" {
 					return sliceOrigin{true, "CopyToSlice"}
+				}
+				if cal.Pkg() != nil && cal.Pkg().Path() == "slices" {
+					switch cal.Name() {
+					case "Clone", "Collect", "Sorted", "Concat", "Repeat":
+						return sliceOrigin{true, "slices." + cal.Name()}
+					case "Clip", "Grow", "Compact", "CompactFunc", "Delete", "DeleteFunc", "Insert", "Replace":
+						if len(t.Args) > 0 {
+							return classify(t.Args[0])
+						}
+					}
 				}
 				return sliceOrigin{false, "the result of " + cal.Name() + ", which may be the storage of an existing list"}
 			}
@@ -476,6 +493,12 @@ func ruleR091(c *Ctx) {
 				}
 			case *ast.AssignStmt:
 				if _, isSel := ast.Unparen(t.Lhs[0]).(*ast.SelectorExpr); isSel && len(t.Lhs) == 1 && len(t.Rhs) == 1 && isItems(t.Lhs[0]) {
+					// slices.Clip(x) is x[:len(x):len(x)]
+					if cc, ok := ast.Unparen(t.Rhs[0]).(*ast.CallExpr); ok && len(cc.Args) == 1 && isItems(cc.Args[0]) {
+						if cal := Callee(info, cc); cal != nil && cal.Pkg() != nil && cal.Pkg().Path() == "slices" && cal.Name() == "Clip" {
+							trim = t
+						}
+					}
 					if se, ok := ast.Unparen(t.Rhs[0]).(*ast.SliceExpr); ok && se.Slice3 && isItems(se.X) {
 						lenItems := "len(" + nodeStr(c.Fset, se.X) + ")"
 						if nodeStr(c.Fset, se.High) == lenItems && nodeStr(c.Fset, se.Max) == lenItems {
@@ -545,11 +568,37 @@ func ruleR091(c *Ctx) {
 			nRet++
 			res := ast.Unparen(r.Results[0])
 			if name == "ToSlice" {
+				// slices.Clip(x) is x[:len(x):len(x)]
+				if cc, ok := res.(*ast.CallExpr); ok && len(cc.Args) == 1 {
+					if cal := Callee(info, cc); cal != nil && cal.Pkg() != nil && cal.Pkg().Path() == "slices" && cal.Name() == "Clip" {
+						return true
+					}
+				}
 				se, ok := res.(*ast.SliceExpr)
 				if !ok || !se.Slice3 || nodeStr(c.Fset, se.High) != nodeStr(c.Fset, se.Max) || nodeStr(c.Fset, se.High) != "len("+nodeStr(c.Fset, se.X)+")" {
 					okAll, why = false, "returns "+nodeStr(c.Fset, res)+", not a full slice expression x[0:len(x):len(x)]: an append by the caller writes into the list's spare capacity"
 				}
 			} else {
+				// a copy made on the spot: slices.Clone(x), append([]Value(nil), x...), append([]Value{}, x...)
+				if call, ok := res.(*ast.CallExpr); ok {
+					if cal := Callee(info, call); cal != nil && cal.Pkg() != nil && cal.Pkg().Path() == "slices" && cal.Name() == "Clone" {
+						return true
+					}
+					if fid, ok := ast.Unparen(call.Fun).(*ast.Ident); ok && fid.Name == "append" && len(call.Args) == 2 && call.Ellipsis.IsValid() {
+						switch a0 := ast.Unparen(call.Args[0]).(type) {
+						case *ast.CompositeLit:
+							if len(a0.Elts) == 0 {
+								return true
+							}
+						case *ast.CallExpr:
+							if tv, ok := info.Types[a0.Fun]; ok && tv.IsType() && len(a0.Args) == 1 {
+								if nid, ok := ast.Unparen(a0.Args[0]).(*ast.Ident); ok && nid.Name == "nil" {
+									return true
+								}
+							}
+						}
+					}
+				}
 				id, ok := res.(*ast.Ident)
 				if !ok {
 					okAll, why = false, "returns "+nodeStr(c.Fset, res)
@@ -557,7 +606,7 @@ func ruleR091(c *Ctx) {
 				}
 				o := c.sliceOriginOf(vp, fd, info.ObjectOf(id), 0)
 				if !o.fresh || o.reason != "make" && o.reason != "declared here" {
-					if !(o.fresh && (o.reason == "make" || o.reason == "a literal")) {
+					if !(o.fresh && (o.reason == "make" || o.reason == "a literal" || o.reason == "slices.Clone")) {
 						okAll, why = false, "returns "+id.Name+", which is "+o.reason+", not a fresh copy: set/reverse/order/~ then modify the list itself"
 					}
 				}
@@ -936,4 +985,138 @@ func (c *Ctx) returnsCacheField(vp *packages.Package, fn *types.Func) bool {
 		return true
 	})
 	return found
+}
+
+// ---------------------------------------------------------------------------
+// R09.3 language values other than List do not append in place.
+//
+// A method of a type that is a value of the language (it implements
+// value.Value) must not call append on a slice field of its receiver, nor of
+// a shallow copy of the receiver (n := *d copies the slice header, not the
+// backing array): if the slice has spare capacity, the element is written
+// into storage that the receiver and every value derived from it share, so
+// two values derived from the same one overwrite each other's element and a
+// value returned earlier changes. The first operand has to be capped
+// (x[:len(x):len(x)], slices.Clip) or cloned. *List has its own protocol
+// (R09.1 parts b0/b).
+
+func ruleR093(c *Ctx) {
+	vp := c.Pkg("value")
+	if vp == nil {
+		c.Undecided("package value", token.NoPos, "not found")
+		return
+	}
+	vt := LookupType(vp, "Value")
+	if vt == nil {
+		c.Undecided("value.Value", token.NoPos, "not found")
+		return
+	}
+	valueIface, _ := vt.Type().Underlying().(*types.Interface)
+	listType := LookupType(vp, "List")
+	pkgs := []*packages.Package{vp}
+	if ep := c.Pkg("value/export"); ep != nil {
+		pkgs = append(pkgs, ep)
+	}
+	nMethods, nApp := 0, 0
+	for _, pkg := range pkgs {
+		info := pkg.TypesInfo
+		for _, f := range pkg.Syntax {
+			for _, d := range f.Decls {
+				fd, ok := d.(*ast.FuncDecl)
+				if !ok || fd.Body == nil || fd.Recv == nil || len(fd.Recv.List) != 1 || len(fd.Recv.List[0].Names) != 1 {
+					continue
+				}
+				recvObj := info.Defs[fd.Recv.List[0].Names[0]]
+				if recvObj == nil {
+					continue
+				}
+				nm := namedOf(recvObj.Type())
+				if nm == nil || (listType != nil && nm.Obj() == listType) {
+					continue
+				}
+				if valueIface == nil || !(types.Implements(nm, valueIface) || types.Implements(types.NewPointer(nm), valueIface)) {
+					continue
+				}
+				nMethods++
+				// shallow copies of the receiver: n := *d, var n = *d, n := d
+				copies := map[types.Object]bool{recvObj: true}
+				isRecvCopy := func(e ast.Expr) bool {
+					e = ast.Unparen(e)
+					if st, ok := e.(*ast.StarExpr); ok {
+						e = ast.Unparen(st.X)
+					}
+					id, ok := e.(*ast.Ident)
+					return ok && copies[info.ObjectOf(id)]
+				}
+				ast.Inspect(fd.Body, func(x ast.Node) bool {
+					switch t := x.(type) {
+					case *ast.AssignStmt:
+						if len(t.Lhs) == len(t.Rhs) {
+							for i, l := range t.Lhs {
+								if id, ok := l.(*ast.Ident); ok && isRecvCopy(t.Rhs[i]) {
+									if o := info.ObjectOf(id); o != nil {
+										copies[o] = true
+									}
+								}
+							}
+						}
+					case *ast.ValueSpec:
+						if len(t.Names) == len(t.Values) {
+							for i, id := range t.Names {
+								if isRecvCopy(t.Values[i]) {
+									if o := info.ObjectOf(id); o != nil {
+										copies[o] = true
+									}
+								}
+							}
+						}
+					}
+					return true
+				})
+				fname := declName(pkg, fd)
+				ord := 0
+				ast.Inspect(fd.Body, func(x ast.Node) bool {
+					call, ok := x.(*ast.CallExpr)
+					if !ok || len(call.Args) < 2 {
+						return true
+					}
+					id, ok := ast.Unparen(call.Fun).(*ast.Ident)
+					if !ok || id.Name != "append" {
+						return true
+					}
+					if _, isB := info.Uses[id].(*types.Builtin); !isB {
+						return true
+					}
+					a0 := ast.Unparen(call.Args[0])
+					if se, ok := a0.(*ast.SliceExpr); ok {
+						if se.Slice3 && se.Max != nil && se.High != nil && nodeStr(c.Fset, se.Max) == nodeStr(c.Fset, se.High) {
+							return true // capped: append copies
+						}
+						a0 = ast.Unparen(se.X)
+					}
+					sel, ok := a0.(*ast.SelectorExpr)
+					if !ok {
+						return true
+					}
+					root := rootIdent(sel)
+					if root == nil || !copies[info.ObjectOf(root)] {
+						return true
+					}
+					if s, ok := info.Selections[sel]; !ok || s.Kind() != types.FieldVal {
+						return true
+					}
+					nApp++
+					ord++
+					key := fmt.Sprintf("%s#append-to-shared-field[%d]:%s", fname, ord, nodeStr(c.Fset, sel))
+					c.Violation(key, call.Pos(), "append(%s, …) in a method of the language value %s: %s is the receiver's slice (or that of a shallow copy, which shares the backing array), so with spare capacity the element is written into storage shared by the receiver and every value derived from it — two values derived from the same one overwrite each other's element, and a value returned by an earlier evaluation changes; cap the operand (x[:len(x):len(x)] / slices.Clip) or clone it", nodeStr(c.Fset, sel), nm.Obj().Name(), nodeStr(c.Fset, sel))
+					return true
+				})
+			}
+		}
+	}
+	if nMethods < 40 {
+		c.Undecided("value#methods-of-language-values", token.NoPos, "only %d methods of language values found", nMethods)
+		return
+	}
+	c.OK("value#methods-of-language-values", token.NoPos, "%d methods of types implementing value.Value examined (value, value/export; *List has its own protocol): none appends to a slice field of its receiver or of a shallow copy of it without capping or cloning it (%d uncapped appends)", nMethods, nApp)
 }
